@@ -90,9 +90,13 @@ def gen_instance(rng, profile="mixed", nj=None, nm=None):
     if profile == "outs":
         # several outages on the SAME component with different durations and frequencies (they strike together and
         # apart), on machines and on AGVs
-        d, feats = gen_instance(rng, "full", nj=rng.randint(2, 3), nm=2)
+        base = rng.choice(["full", "full", "classic"])      # classic: machine outages only, more machines busy at once
+        if base == "full":
+            d, feats = gen_instance(rng, "full", nj=rng.randint(2, 3), nm=2)
+        else:
+            d, feats = gen_instance(rng, "classic", nj=rng.randint(3, 4), nm=rng.randint(2, 3))
         outs = []
-        for comp in ("m", "t"):
+        for comp in (("m", "t") if base == "full" else ("m",)):
             for _ in range(rng.randint(1, 3)):
                 outs.append({"component": rng.choice([comp, comp, "m-%d" % rng.randrange(2)] if comp == "m" else [comp]),
                              "type": rng.choice(["maintenance", "fail", "recharge"]),
@@ -314,7 +318,10 @@ class Policy:
 
     def __call__(self, env):
         if self.bad_p and self.rng.random() < self.bad_p:
-            return self.rng.choice([2, -1, 7, 3])
+            import numpy as np
+            # anything Discrete(2).contains() refuses: integers out of range, non-integers near 0/1, other types
+            return self.rng.choice([2, -1, 7, 3, 0.5, 1.5, -0.4, 0.99, 1.0, 0.0, np.float64(0.7), np.float32(1.0), "1", "0",
+                                    None, np.array([1]), [1], (0,), np.int64(5), float("nan")])
         return 1 if self.rng.random() < self.p else 0
 
 
